@@ -159,6 +159,10 @@ def delete (hasDb : Bool) (s : Store) : Nat → WN → List Nib → DRes
         | some e => { node := .short sk h r.node d tc, err := some e, td := r.td }
         | none =>
           match r.node with
+          | .nil =>
+            -- fix 9bafaec: the child was a short node itself (only in a trie imported from a crafted export) and is gone:
+            -- so is this node
+            { node := .nil, change := r.change, td := r.td ++ [h] }
           | .short ck _ cc _ _ => { node := .short (sk ++ ck) h cc true tc, change := r.change, td := r.td }
           | n' => { node := .short sk h n' true tc, change := r.change, td := r.td }
     | .routing h ch w d tc =>
